@@ -844,32 +844,33 @@ Proof.
       splits; auto using RowSt_set_so, RowSt_set_ibm, RowSt_set_attr, SameFrame_set_so, SameFrame_set_ibm, SameFrame_set_attr. }
   fold tc. destruct H5 as (t5 & -> & HR5 & HF5 & Hat5 & Hcs5 & Hirm5 & Hmode5).
   (* insert Y *)
-  cbn [map]. rewrite (run_cons t5 TIrmOn). cbn [step]. set (t6 := set_irm t5 true).
-  rewrite (run_cons t6 (ch_tok yc)). unfold ch_tok. cbn [step].
+  set (tail := if negb (g_utf8 c) && (ycs =? 2) then [TIbmOff] else []).
+  set (t6 := set_irm t5 true).
+  set (t7 := put t6 (fst yc) (snd yc)).
+  replace (run (run (run (run t5 [TIrmOn]) (map ch_tok [yc])) [TIrmOff]) tail) with (run (set_irm t7 false) tail)
+    by reflexivity.
   assert (HR6 : RowSt t6 y (row_cells c nr0) (Zc ++ R')) by (apply RowSt_set_irm; exact HR5).
   assert (HF6 : SameFrame t0 t6 y) by (apply SameFrame_set_irm; exact HF5).
   assert (Hy6 : 0 <= y < zlen (t_grid t6)) by (cbn; rewrite (SameFrame_len _ _ _ HF5); exact Hy).
   destruct (put_ins_ok t0 t6 y (row_cells c nr0) Zc R' (fst yc) (snd yc) HR6 HF6 Hy6 eq_refl Hwy HzR' HwZ)
     as (HR7 & HF7 & HM7).
-  set (t7 := put t6 (fst yc) (snd yc)) in *.
+  fold t7 in HR7, HF7, HM7.
   destruct HM7 as (M1 & M2 & M3 & M4). cbn in M1, M2, M3, M4.
   (* insert mode off, IBMPC off again if Y was drawn in it *)
-  rewrite (run_cons t7 TIrmOff). cbn [step].
-  set (tail := if negb (g_utf8 c) && (ycs =? 2) then [TIbmOff] else []).
   assert (H8 : exists t8, run (set_irm t7 false) tail = t8 /\ t_grid t8 = t_grid t7 /\ SameFrame t0 t8 y /\ t_y t8 = y
                  /\ t_irm t8 = false /\ t_ibm t8 = false /\ (g_utf8 c = true -> t_so t8 = false)).
   { assert (Y7 : t_y t7 = y) by apply HR7.
     unfold tail. destruct (g_utf8 c) eqn:U; cbn [negb andb].
     - exists (set_irm t7 false). destruct Hmode5 as [S5 I5].
-      splits; try reflexivity; try exact Y7; try (unfold SameFrame in *; cbn; exact HF7); try (cbn; congruence).
-      intros _. cbn. congruence.
+      splits; try reflexivity; try exact Y7; try (unfold SameFrame in *; cbn; exact HF7); try (cbn; congruence);
+        try (intros _; cbn; congruence).
     - destruct (ycs =? 2) eqn:E2.
       + exists (set_ibm (set_irm t7 false) false).
         splits; try reflexivity; try exact Y7; try (unfold SameFrame in *; cbn; exact HF7); try (intros; discriminate).
       + exists (set_irm t7 false).
         splits; try reflexivity; try exact Y7; try (unfold SameFrame in *; cbn; exact HF7); try (cbn; congruence);
           try (intros; discriminate). }
-  fold tail. destruct H8 as (t8 & -> & Hg8 & HF8 & Hy8 & Hirm8 & Hibm8 & Hso8).
+  destruct H8 as (t8 & -> & Hg8 & HF8 & Hy8 & Hirm8 & Hibm8 & Hso8).
   unfold RowDone. splits; auto; try contradiction.
   - unfold row_shows. rewrite Hg8.
     destruct HR7 as (_ & Hrow7 & _). rewrite Hrow7.
@@ -886,9 +887,7 @@ Record LoopInv (c : cfg) (cols rows : Z) (tb : term) (content : list crow) (y : 
   li_ru : d_ru acc = None;
   li_sb : d_sb acc = takez y content;
   li_inv : y < rows -> Inv c (d_rs acc) t;
-  li_ibm : t_ibm t = false;
-  li_irm : t_irm t = false;
-  li_so : g_utf8 c = true -> t_so t = false;
+  li_modes : Modes c (d_rs acc) t;
   li_cols : t_cols t = cols;
   li_rows : t_rows t = rows;
   li_len : zlen (t_grid t) = rows;
@@ -962,7 +961,7 @@ Lemma loop_next c cols rows tb content y row acc t t1 t2 rs2 out' (keep : Prop) 
   RowDone c t1 t2 y row rs2 keep -> (y + 1 < rows -> keep) ->
   LoopInv c cols rows tb content (y + 1) (mkAcc out' (d_sb acc ++ [row]) y rs2 None) t2.
 Proof.
-  intros L Hy Hrow Ht1 (Hshow & HF & Hibm & Hirm & Hso & Hinv) Hkeep. destruct L.
+  intros L Hy Hrow Ht1 (Hshow & HF & _ & Hmodes & Hinv) Hkeep. destruct L.
   assert (G : t_grid t1 = t_grid t /\ t_cols t1 = t_cols t /\ t_rows t1 = t_rows t /\ t_scrolled t1 = t_scrolled t
               /\ t_visible t1 = t_visible t /\ t_bce t1 = t_bce t /\ t_g1 t1 = t_g1 t).
   { destruct Ht1 as [-> | ->]; cbn; splits; reflexivity. }
@@ -972,9 +971,7 @@ Proof.
   - reflexivity.
   - rewrite li_sb0. symmetry. apply takez_succ. exact Hrow.
   - intros H. apply Hinv. apply Hkeep. exact H.
-  - exact Hibm.
-  - exact Hirm.
-  - exact Hso.
+  - exact Hmodes.
   - rewrite F1, G2. exact li_cols0.
   - rewrite F2, G3. exact li_rows0.
   - rewrite F3, G1. exact li_len0.
@@ -1170,7 +1167,7 @@ Proof. apply takez_all. lia. Qed.
 Theorem draw_paints_lemma c s t cols rows content cursor :
   cfg_ok c -> Sync c s t -> t_cols t = cols -> t_rows t = rows ->
   canvas_ok c cols rows content -> cursor_ok cols rows cursor ->
-  exists toks s', draw_screen c s cols rows content cursor false = Ok (toks, s')
+  exists toks s', draw_screen c s cols rows content cursor false false = Ok (toks, s')
      /\ Paints c (run t toks) content cursor /\ Sync c s' (run t toks) /\ s_buf s' = content
      /\ t_cols (run t toks) = cols /\ t_rows (run t toks) = rows.
 Proof.
@@ -1202,11 +1199,13 @@ Proof.
   set (acc0 := mkAcc out0 [] 0 (mkRs 0 true 0) None).
   assert (L0 : LoopInv c cols rows tb content 0 acc0 tb).
   { constructor; cbn [d_ru d_sb d_rs d_out d_cy acc0]; auto.
-    - intros _. unfold Inv. cbn [r_last r_first r_lcs]. splits; auto.
+    - intros _. unfold Inv, CsInv. cbn [r_last r_first r_lcs]. splits; auto.
       destruct (g_utf8 c) eqn:U.
-      + rewrite B10. apply Sso. reflexivity.
+      + split; [rewrite B10; apply Sso; reflexivity|exact B8].
       + splits; auto. discriminate.
-    - intros U. rewrite B10. apply Sso. exact U.
+    - unfold Modes. splits; auto.
+      + intros H. congruence.
+      + intros U. rewrite B10. apply Sso. exact U.
     - rewrite B1, T3. exact Hrows.
     - intros y' row' H. exfalso. clear -H. lia. }
   assert (A1 : 1 <= cols) by (rewrite <- Hcols; exact T1).
@@ -1232,33 +1231,40 @@ Proof.
     pose proof (li_done0 y row Hy Hn) as Hs. unfold row_shows in Hs. apply Forall2_zlen in Hs. rewrite <- Hs.
     pose proof (Forall_nthz _ _ _ _ Crows Hn) as Hrok.
     rewrite zlen_row_cells by (eapply row_ok_weak; eauto). destruct Hrok as [_ Hw]. exact Hw. }
+  (* the IBMPC mapping is switched off at the end of the frame *)
+  set (t_ibm' := if negb (g_utf8 c) && (r_lcs (d_rs acc') =? 2) then [TIbmOff] else []).
+  assert (G2 : exists tl2, run tl t_ibm' = tl2 /\ t_grid tl2 = t_grid tl /\ t_cols tl2 = cols /\ t_rows tl2 = rows
+                 /\ t_scrolled tl2 = false /\ t_visible tl2 = false /\ t_bce tl2 = t_bce tl /\ t_g1 tl2 = true
+                 /\ t_irm tl2 = false /\ t_ibm tl2 = false /\ (g_utf8 c = true -> t_so tl2 = false)).
+  { destruct li_modes0 as (Mirm & Mibm & Mso).
+    unfold t_ibm'. destruct (negb (g_utf8 c) && (r_lcs (d_rs acc') =? 2)) eqn:E.
+    - exists (set_ibm tl false). cbn. splits; auto; congruence.
+    - exists tl. cbn [run fold_left]. splits; auto; try congruence.
+      destruct (t_ibm tl) eqn:Ei; [|reflexivity]. destruct (Mibm eq_refl) as [U L2]. rewrite U, L2 in E. discriminate. }
+  destruct G2 as (tl2 & Etl2 & Q1 & Q2 & Q3 & Q4 & Q5 & Q6 & Q7 & Q8 & Q9 & Q10).
   destruct cursor as [[cx cy]|].
   - (* cursor shown *)
     destruct Hcur as [Hcx Hcy].
     eexists. eexists. split; [reflexivity|].
-    rewrite Od. cbn [d_out acc0]. rewrite !run_app. fold ta. fold tb. fold tl.
+    rewrite Od. cbn [d_out acc0]. rewrite !run_app. fold ta. fold tb. fold tl. fold t_ibm'. rewrite Etl2.
     unfold set_cursor_position. cbn [negb run fold_left].
-    rewrite cup_ok by (rewrite ?li_cols0, ?li_rows0; assumption). cbn [step].
+    rewrite cup_ok by (rewrite ?Q2, ?Q3; assumption). cbn [step].
     split; [|split].
-    + split; [exact Hshows|]. split; [cbn; splits; reflexivity|]. cbn. rewrite li_scr0. exact B4.
+    + split; [cbn; rewrite Q1; exact Hshows|]. split; [cbn; splits; reflexivity|]. cbn. exact Q4.
     + unfold Sync. cbn. splits; auto.
-      * unfold term_ok. cbn. rewrite li_cols0, li_rows0, li_len0. splits; auto; congruence.
-      * rewrite li_scr0. exact B4.
-      * intros _. rewrite Lg1. exact B7.
-      * intros B. rewrite li_bce0, B6. apply Sbce. exact B.
-      * intros _. rewrite Hsb. exact Hshows.
+      * unfold term_ok. cbn. rewrite Q1, Q2, Q3, li_len0. splits; auto; congruence.
+      * intros B. rewrite Q6, li_bce0, B6. apply Sbce. exact B.
+      * intros _. rewrite Hsb, Q1. exact Hshows.
     + cbn. splits; auto.
   - (* cursor hidden *)
     eexists. eexists. split; [reflexivity|].
-    rewrite Od. cbn [d_out acc0]. rewrite !run_app. fold ta. fold tb. fold tl. cbn [run fold_left].
+    rewrite Od. cbn [d_out acc0]. rewrite !run_app. fold ta. fold tb. fold tl. fold t_ibm'. rewrite Etl2. cbn [run fold_left].
     split; [|split].
-    + split; [exact Hshows|]. split; [cbn; rewrite li_vis0; exact B5|]. rewrite li_scr0. exact B4.
+    + split; [rewrite Q1; exact Hshows|]. split; [cbn; exact Q5|]. exact Q4.
     + unfold Sync. cbn. splits; auto.
-      * unfold term_ok. cbn. rewrite li_cols0, li_rows0, li_len0. splits; auto; congruence.
-      * rewrite li_scr0. exact B4.
-      * intros _. rewrite Lg1. exact B7.
-      * intros B. rewrite li_bce0, B6. apply Sbce. exact B.
-      * intros _. rewrite Hsb. exact Hshows.
+      * unfold term_ok. rewrite Q1, Q2, Q3, li_len0. splits; auto; congruence.
+      * intros B. rewrite Q6, li_bce0, B6. apply Sbce. exact B.
+      * intros _. rewrite Hsb, Q1. exact Hshows.
     + cbn. splits; auto.
 Qed.
 
@@ -1290,14 +1296,14 @@ Qed.
 
 (* the same canvas object while the screen buffer is valid: nothing is written *)
 Lemma draw_same_noop c s cols rows content cursor :
-  s_buf s <> [] -> rows = zlen content -> draw_screen c s cols rows content cursor true = Ok ([], s).
+  s_buf s <> [] -> rows = zlen content -> draw_screen c s cols rows content cursor true false = Ok ([], s).
 Proof.
   intros Hb Hr. unfold draw_screen. assert (E : negb (rows =? zlen content) = false) by lia. rewrite E.
   destruct (s_buf s); [congruence|]. reflexivity.
 Qed.
 
 Lemma draw_same_fresh c s cols rows content cursor :
-  s_buf s = [] -> draw_screen c s cols rows content cursor true = draw_screen c s cols rows content cursor false.
+  s_buf s = [] -> draw_screen c s cols rows content cursor true false = draw_screen c s cols rows content cursor false.
 Proof. intros Hb. unfold draw_screen. rewrite Hb. reflexivity. Qed.
 
 Definition RInv (c : cfg) (s : scr) (t : term) (last : option canvas) (shown : bool) : Prop :=
@@ -1360,8 +1366,8 @@ Theorem incremental_eq_full_lemma c s t t_any content cursor :
   cfg_ok c -> Sync c s t -> same_but_cells t t_any ->
   canvas_ok c (t_cols t) (t_rows t) content -> cursor_ok (t_cols t) (t_rows t) cursor ->
   exists toks s1 toks_full s2,
-    draw_screen c s (t_cols t) (t_rows t) content cursor false = Ok (toks, s1) /\
-    draw_screen c (clear s) (t_cols t) (t_rows t) content cursor false = Ok (toks_full, s2) /\
+    draw_screen c s (t_cols t) (t_rows t) content cursor false false = Ok (toks, s1) /\
+    draw_screen c (clear s) (t_cols t) (t_rows t) content cursor false false = Ok (toks_full, s2) /\
     Paints c (run t toks) content cursor /\ Paints c (run t_any toks_full) content cursor /\
     s_buf s1 = s_buf s2.
 Proof.
@@ -1375,50 +1381,37 @@ Proof.
   exists toks, s1, toks2, s2. splits; auto. congruence.
 Qed.
 
-(* ================= 10. what is false of the code as it is: witnesses ================= *)
-Definition w_cfg : cfg := mkCfg false true false false [(0, default_spec)].
-
-Lemma w_cfg_ok : cfg_ok w_cfg.
-Proof. unfold cfg_ok, w_cfg. cbn. constructor; [apply default_spec_ok|constructor]. Qed.
-
-(* IBMPC leak: 2x1 screen; frame 1 = "a " in charset U (the blank is erased, SGR 11 stays selected);
-   frame 2 = "b " in the default charset is painted in the IBMPC charset *)
-Definition leak_f1 : canvas := ([[(0, 2, [(97, 1); (32, 1)])]], None).
-Definition leak_f2 : canvas := ([[(0, 0, [(98, 1); (32, 1)])]], None).
-
-Lemma charset_u_refuted_lemma : ~ draw_paints_charset_u_full.
+(* ================= 10. plain histories of draws from a fresh terminal ================= *)
+Lemma term_ok_new cols rows : 1 <= cols -> 1 <= rows -> term_ok (new_term cols rows).
 Proof.
-  intros H.
-  destruct (run_draws w_cfg (init_scr false) (new_term 2 1) ([leak_f1] ++ [leak_f2])) as [[s t]|] eqn:E;
-    [|vm_compute in E; discriminate].
-  assert (Hok : Forall (fun f : canvas => canvas_ok_u w_cfg 2 1 (fst f) /\ cursor_ok 2 1 (snd f)) ([leak_f1] ++ [leak_f2])).
-  { unfold canvas_ok_u, run_ok_u, chr_ok, cursor_ok. cbn.
-    repeat first [apply Forall_nil | apply Forall_cons | split | discriminate | lia | exact I | (left; reflexivity)]. }
-  specialize (H w_cfg 2 1 [leak_f1] (fst leak_f2) (snd leak_f2) s t w_cfg_ok ltac:(lia) ltac:(lia) Hok E).
-  vm_compute in E. inversion E; subst s t. clear E.
-  destruct H as ((_ & Hg) & _).
-  specialize (Hg 0 _ eq_refl). unfold row_shows in Hg. vm_compute in Hg.
-  inversion Hg as [|e g l1 l2 Hv _]; subst. vm_compute in Hv.
-  destruct Hv as (_ & _ & _ & Hcs). discriminate.
+  intros Hc Hr. unfold term_ok, new_term. cbn. splits; auto.
+  - rewrite zlen_repeat. lia.
+  - apply Forall_forall. intros r Hin. apply repeat_spec in Hin. subst r. unfold blank_row. rewrite zlen_repeat. lia.
 Qed.
 
-(* partial display: 1x2 screen; frame 1 paints "a","b" without a cursor (the terminal cursor stays on
-   row 1, self._cy stays 0); frame 2 changes row 0 to "c" and paints it on row 1 *)
-Definition part_f1 : canvas := ([[(0, 0, [(97, 1)])]; [(0, 0, [(98, 1)])]], None).
-Definition part_f2 : canvas := ([[(0, 0, [(99, 1)])]; [(0, 0, [(98, 1)])]], None).
-
-Lemma partial_refuted_lemma : ~ draw_paints_partial_full.
+Lemma run_draws_ok c cols rows frames : forall s t,
+  cfg_ok c -> Sync c s t -> t_cols t = cols -> t_rows t = rows ->
+  Forall (fun f : canvas => canvas_ok c cols rows (fst f) /\ cursor_ok cols rows (snd f)) frames ->
+  exists s' t', run_draws c s t frames = Some (s', t') /\ Sync c s' t' /\
+    forall content cursor, last_opt frames = Some (content, cursor) -> Paints c t' content cursor.
 Proof.
-  intros H.
-  destruct (run_draws w_cfg (init_scr true) (new_term 1 2) ([part_f1] ++ [part_f2])) as [[s t]|] eqn:E;
-    [|vm_compute in E; discriminate].
-  assert (Hok : Forall (fun f : canvas => canvas_ok w_cfg 1 2 (fst f) /\ cursor_ok 1 2 (snd f)) ([part_f1] ++ [part_f2])).
-  { unfold canvas_ok, row_ok, run_ok, chr_ok, cursor_ok. cbn.
-    repeat first [apply Forall_nil | apply Forall_cons | split | discriminate | lia | exact I | (left; reflexivity)]. }
-  specialize (H w_cfg 1 2 [part_f1] (fst part_f2) (snd part_f2) s t w_cfg_ok ltac:(lia) ltac:(lia) Hok E).
-  vm_compute in E. inversion E; subst s t. clear E.
-  destruct H as (Hg & _).
-  specialize (Hg 0 _ 1 eq_refl ltac:(lia) eq_refl). unfold row_shows in Hg. vm_compute in Hg.
-  inversion Hg as [|e g l1 l2 Hv _]; subst. vm_compute in Hv.
-  destruct Hv as (Hcp & _). discriminate.
+  induction frames as [|[content cursor] rest IH]; intros s t Hc HS Hcols Hrows Hok.
+  - exists s, t. splits; auto. intros; discriminate.
+  - apply Forall_cons_iff in Hok as [[Hcan Hcur] Hrest]. cbn [fst snd] in *.
+    destruct (draw_paints_lemma c s t cols rows content cursor Hc HS Hcols Hrows Hcan Hcur)
+      as (toks & s1 & E & HP & HS1 & _ & Hc1 & Hr1).
+    cbn [run_draws]. rewrite Hcols, Hrows, E.
+    destruct (IH s1 (run t toks) Hc HS1 Hc1 Hr1 Hrest) as (s' & t' & E' & HS' & HL).
+    exists s', t'. splits; auto. intros c0 cur0 Hl. destruct rest as [|f rest'].
+    + cbn in Hl. inversion Hl; subst. cbn [run_draws] in E'. inversion E'; subst. exact HP.
+    + apply HL. exact Hl.
+Qed.
+
+Theorem draws_paint_fullscreen_lemma : draws_paint_statement false (fun c s t content cursor => Paints c t content cursor).
+Proof.
+  intros c cols rows frames content cursor s t Hc Hcols Hrows Hok E.
+  assert (HS : Sync c (init_scr false) (new_term cols rows)).
+  { apply sync_start. unfold term_start_ok. splits; auto using term_ok_new. }
+  destruct (run_draws_ok c cols rows _ _ _ Hc HS eq_refl eq_refl Hok) as (s' & t' & E' & _ & HL).
+  rewrite E in E'. inversion E'; subst. apply HL. apply last_opt_snoc.
 Qed.
